@@ -785,7 +785,15 @@ func (a *analysis) checkControl(x *verifkit.Exec) {
 	lastStatusWriteFailed := false
 	lastTeardownSeq, lastStatusAttemptSeq := -1, -1
 	callSeq := map[int]int{}
+	failedStartSeq, failedStartErr := -1, ""
+	openAtEnd := -1 // connectors open when the history ends (before the harness winds the stack down)
 	for _, e := range a.evs {
+		if e.Comp == "end" && e.Kind == "status" && openAtEnd < 0 {
+			openAtEnd = 0
+			for _, n := range open {
+				openAtEnd += n
+			}
+		}
 		if (isSource(e.Comp) || isDest(e.Comp) || e.Comp == "dlq") && e.Kind == "teardown" {
 			lastTeardownSeq = e.Seq
 		}
@@ -873,6 +881,11 @@ func (a *analysis) checkControl(x *verifkit.Exec) {
 					a.bad("C11/wait-returned-for-another-run", "WaitPipeline returned nil while the pipeline is Running with open connectors (event #%d): it waited for an earlier run", e.Seq)
 				}
 			case "start":
+				if res[0] != "nil" && !liveAtCall && !strings.Contains(res[0], "running") {
+					failedStartSeq, failedStartErr = e.Seq, res[0]
+				} else if res[0] == "nil" {
+					failedStartSeq = -1
+				}
 				if res[0] != "nil" && strings.Contains(res[0], "running") && !liveRun && !liveAtCall && memStatus == "Running" &&
 					lastTeardownSeq >= 0 && !x.StepCapHit && len(x.W.Pending()) == 0 && !statusWriteAfter(a.evs, callSeq[e.Idx]) {
 					// the previous run (or start attempt) has ended: its connectors are closed and no status write of its
@@ -891,6 +904,20 @@ func (a *analysis) checkControl(x *verifkit.Exec) {
 					a.bad(key, "Start failed (%s) although no run is live (status %s): the previous run was not fully released (event #%d)", res[0], memStatus, e.Seq)
 				}
 			}
+		}
+	}
+	// a Start that reports failure has not started anything: if the connectors it opened are still open when the history
+	// ends (nothing else was asked of the pipeline afterwards), the caller was told the opposite of what happened
+	if failedStartSeq >= 0 && !x.StepCapHit && len(x.W.Pending()) == 0 {
+		stillOpen := openAtEnd > 0
+		laterCall := false
+		for _, e := range a.evs {
+			if e.Comp == "ctl" && e.Kind == "call" && e.Seq > failedStartSeq {
+				laterCall = true
+			}
+		}
+		if stillOpen && !laterCall {
+			a.bad("C11/start-reported-failure-but-left-a-live-run/"+a.p.Engine, "Start returned an error (%s, event #%d) but the run it started is alive: its connectors are still open when the history ends", failedStartErr, failedStartSeq)
 		}
 	}
 	if len(a.p.Ctl) == 0 {
